@@ -17,7 +17,8 @@ RULE = ('site: every predefined site class over its parameter range (2S<=6, Nmax
         'grouped: random 2-3 heterogeneous sites x charges in {same, drop, independent} (x preparation by '
         'set_common_charges, custom labels), set_common_charges with same/drop/independent/explicit linear '
         'combinations x sort_charge; chain: chains of 2-6 sites (uniform fermion chains with conserve N/parity/None, '
-        'spinful chains, heterogeneous chains with bosonic fillers, common charges via set_common_charges): all '
+        'spinful chains, heterogeneous chains with bosonic fillers incl. interleaved boson/fermion patterns, common charges '
+        'via set_common_charges; term correlation functions / apply_local_term / _term_to_ops_list with non-zero offsets): all '
         'ordered pairs of atomic fermionic operators on all site pairs (sampled operator choice when >150), sampled '
         'products of 2-6 operators incl. compound names, repeated sites, odd parity, unit-cell indices outside '
         '[0,L); random MPS with definite charge; model: CouplingModel.add_local_term / add_coupling / '
